@@ -689,6 +689,28 @@ package otto
 //@ func (*object).writeProperty
 //@   inline
 
+
+// 15.3.5.3 [[HasInstance]]: V that is not an object gives false; otherwise the search starts at
+// V.[[Prototype]] (not at V) and ends at null: a null [[Prototype]] gives false, a first link
+// equal to F.prototype gives true.  (The walk along the rest of the chain is not specified: no
+// reachability predicate in the contract language.)  15.3.4.5.3: a bound function gives the
+// answer of its target.
+//@ func (*object).hasInstance
+//@   props C05 C07
+//@   nosafety
+//@   requires o != nil && jsValue(of)
+//@   assumes is(o.value, bindFunctionObject) ==> o.value.(bindFunctionObject).target != nil
+//@   calls (*object).get(o, "prototype") as pr when false
+//@   nocall (*object).get(_, _) when of.kind != valueObject && !is(o.value, bindFunctionObject)
+//@   calls (*object).hasInstance(o.value.(bindFunctionObject).target, of) as tr when is(o.value, bindFunctionObject)
+//@   ensures old(is(o.value, bindFunctionObject)) ==> called(tr) && result == tr
+//@   ensures of.kind != valueObject && !old(is(o.value, bindFunctionObject)) ==> !result
+//@   invariant@1 of.kind == valueObject && is(of.value, *object)
+//@   invariant@1 of.value.(*object).prototype == nil ==> value == nil
+//@   invariant@1 value == of.value.(*object).prototype || of.value.(*object).prototype != prototypeObject
+//@   ensures !old(is(o.value, bindFunctionObject)) && of.kind == valueObject && is(of.value, *object) && of.value.(*object).prototype == nil ==> !result
+//@   ensures !old(is(o.value, bindFunctionObject)) && called(pr) && pr.kind == valueObject && is(pr.value, *object) && of.kind == valueObject && is(of.value, *object) && of.value.(*object).prototype == pr.value.(*object) ==> result
+
 // ---------------------------------------------------------------------------
 // dispatch tables of the object classes (discharged against the package initialiser)
 // ---------------------------------------------------------------------------
@@ -787,6 +809,7 @@ package otto
 //@ spec distinctNames(l []string) bool = forall a int :: (forall b int :: (0 <= a && a < b && b < len(l) ==> l[a] != l[b]))
 // removal from the property table: the entry is gone, every other entry is untouched
 //@ func (*object).deleteProperty
+//@   exact_append
 //@   props C07
 //@   requires o != nil
 //@   ensures !has(o.property, name)
@@ -902,6 +925,37 @@ package otto
 //@   nosafety
 //@   requires rt != nil && rt.otto != nil
 //@   calls select(rt.otto.Interrupt) when rt.otto.Interrupt != nil
+
+// Every iteration of a loop statement polls: between two passes through the head of the
+// evaluator's own loop at least one expression or statement evaluation (each of which polls the
+// interrupt channel, see above) takes place - also for an empty body and a constant test.
+//@ func (*runtime).cmplEvaluateModeWhileStatement
+//@   props C18
+//@   nosafety
+//@   requires rt != nil && rt.otto != nil && node != nil
+//@   calls (*runtime).cmplEvaluateNodeExpression(_, _) as ev when false
+//@   calls (*runtime).cmplEvaluateNodeStatement(_, _) as st when false
+//@   at_backedge@1 ncalls(ev) > athead(1, ncalls(ev)) || ncalls(st) > athead(1, ncalls(st))
+//@   at_backedge@2 ncalls(ev) > athead(2, ncalls(ev)) || ncalls(st) > athead(2, ncalls(st))
+//@ func (*runtime).cmplEvaluateNodeDoWhileStatement
+//@   props C18
+//@   nosafety
+//@   requires rt != nil && rt.otto != nil && node != nil
+//@   calls (*runtime).cmplEvaluateNodeExpression(_, _) as ev when false
+//@   calls (*runtime).cmplEvaluateNodeStatement(_, _) as st when false
+//@   at_backedge@1 ncalls(ev) > athead(1, ncalls(ev)) || ncalls(st) > athead(1, ncalls(st))
+//@   at_backedge@2 ncalls(ev) > athead(2, ncalls(ev)) || ncalls(st) > athead(2, ncalls(st))
+// for (;;) {} has neither test, update nor body: the loop polls the channel itself
+//@ func (*runtime).cmplEvaluateNodeForStatement
+//@   props C18
+//@   nosafety
+//@   requires rt != nil && rt.otto != nil && node != nil
+//@   calls (*runtime).cmplEvaluateNodeExpression(_, _) as ev when false
+//@   calls (*runtime).cmplEvaluateNodeStatement(_, _) as st when false
+//@   calls select(rt.otto.Interrupt) as sel when false
+//@   invariant@2 $i >= 0 ==> ncalls(st) > athead(1, ncalls(st))
+//@   at_backedge@1 athead(1, rt.otto.Interrupt != nil) ==> ncalls(ev) > athead(1, ncalls(ev)) || ncalls(st) > athead(1, ncalls(st)) || ncalls(sel) > athead(1, ncalls(sel))
+//@   at_backedge@2 athead(2, rt.otto.Interrupt != nil) ==> ncalls(ev) > athead(2, ncalls(ev)) || ncalls(st) > athead(2, ncalls(st)) || ncalls(sel) > athead(2, ncalls(sel))
 
 // ---------------------------------------------------------------------------
 // error.go, cmpl_evaluate_expression.go: classes, traces, call-site positions (C19)
@@ -1705,6 +1759,27 @@ package otto
 //@   requires call.runtime != nil
 //@   calls dateObjectOf(_, _) as d
 //@   ensures d.isNaN ==> result.kind == valueString && is(result.value, string) && result.value.(string) == "Invalid Date"
+
+// 15.9.1.10 / 15.9.1.4: the broken-down fields of a time value are in their ES5 ranges
+// (msFromTime 0..999, SecFromTime and MinFromTime 0..59, HourFromTime 0..23, DateFromTime 1..31,
+// MonthFromTime 0..11) and each is the corresponding field of the Go time.
+//@ func newEcmaTime
+//@   props C12
+//@   safety C02 C12
+//@   calls time.(time.Time).Nanosecond(_) as ns
+//@   calls time.(time.Time).Second(_) as sec
+//@   calls time.(time.Time).Minute(_) as min
+//@   calls time.(time.Time).Hour(_) as hr
+//@   calls time.(time.Time).Day(_) as dy
+//@   calls time.(time.Time).Year(_) as yr
+//@   ensures called(ns) && result.millisecond == ns / 1000000 && 0 <= result.millisecond && result.millisecond <= 999
+//@   ensures called(sec) && result.second == sec && 0 <= result.second && result.second <= 59
+//@   ensures called(min) && result.minute == min && 0 <= result.minute && result.minute <= 59
+//@   ensures called(hr) && result.hour == hr && 0 <= result.hour && result.hour <= 23
+//@   ensures called(dy) && result.day == dy && 1 <= result.day && result.day <= 31
+//@   ensures called(yr) && result.year == yr
+//@   ensures 0 <= result.month && result.month <= 11
+
 
 // Date.UTC / new Date(y, m, ...): a NaN or infinite field makes the result NaN; the year
 // handed to the calendar is ToInteger(year), plus 1900 when that is within 0..99.
@@ -2565,6 +2640,22 @@ package otto
 //@   props C18
 //@   nosafety
 //@   requires rt != nil && node != nil && (eval ==> rt.scope != nil)
+//@   dyn_preserves runtime.scope, scope.outer
+//@   preserves runtime.scope, scope.outer
+//@   fresh_refs
+
+// Indirect eval (15.1.2.1 with 10.4.2 step 1) runs in the global execution context: the global
+// scope it pushes is popped on every exit - return, JavaScript exception of the evaluated code,
+// interrupt, host panic.  A direct eval pushes nothing.  Parsing is assumed not to touch the stack.
+//@ func (*runtime).cmplParseOrThrow
+//@   trusted
+//@   requires rt != nil
+//@   preserves runtime.scope, scope.outer
+//@   ensures result != nil
+//@ func builtinGlobalEval
+//@   props C18
+//@   nosafety
+//@   requires call.runtime != nil && jsValue(call.This) && argsOK(call.ArgumentList) && (call.eval ==> call.runtime.scope != nil)
 //@   dyn_preserves runtime.scope, scope.outer
 //@   preserves runtime.scope, scope.outer
 //@   fresh_refs
